@@ -181,6 +181,9 @@ func (f fault) String() string {
 	if f.kind == "unexpected" {
 		return fmt.Sprintf("unexpected%d@%d", f.arg, f.k)
 	}
+	if f.kind == "wfailexc" {
+		return fmt.Sprintf("wfail%d+exc@%d", f.arg, f.k)
+	}
 	return fmt.Sprintf("%s@%d", f.kind, f.k)
 }
 
@@ -209,6 +212,10 @@ func body04(s scn, f fault, probe bool) Body {
 		case "callback":
 			fa.n = f.k
 		case "exc", "cancelexc":
+			inj = &Inject{G: f.k, Stop: true, Bytes: c.W.Exception(excReadonly)}
+		case "wfailexc":
+			// two faults: the client's write fails after byte arg and the server sends an exception
+			c.C.FailWriteAt = c.HsLen + f.arg
 			inj = &Inject{G: f.k, Stop: true, Bytes: c.W.Exception(excReadonly)}
 		case "unknown":
 			inj = &Inject{G: f.k, Stop: true, Bytes: []byte{99}}
@@ -371,6 +378,14 @@ func C04(c *vk.Ctx) {
 			}
 		}
 		jobs = append(jobs, job{s, fault{kind: "none"}, gb, false})
+		// two faults together: a failing write and an exception from the server
+		if s.name == "insert" || s.name == "insert-lz4" || !quick {
+			for g := 0; g <= term; g++ {
+				for k := 0; k < cb; k += 16 {
+					jobs = append(jobs, job{s, fault{kind: "wfailexc", k: g, arg: k}, 0, false})
+				}
+			}
+		}
 		// two faults together: cancellation by the caller and an exception from the server
 		if s.name == "insert" || s.name == "insert-stream" || s.name == "insert-bad-rows" || !quick {
 			for g := 0; g <= term; g++ {
